@@ -11,7 +11,7 @@ for d in seeded/*/; do
     if ! git -C $REPO apply --3way $PWD/$d/patch.diff 2>/dev/null; then git -C $REPO checkout -q HEAD -- .; echo "$id $prop PATCH-DOES-NOT-APPLY"; continue; fi
   fi
   git -C $REPO reset -q
-  out=$(VERIF_SEED=$seed ./check $prop quick 2>&1)
+  out=$(VERIF_NO_EVIDENCE=1 VERIF_SEED=$seed ./check $prop quick 2>&1)
   n=$(echo "$out" | grep -c "^VIOLATION"); mach=$(echo "$out" | grep -c "MACHINERY")
   rules=$(echo "$out" | grep -oE "^  C[0-9]+/[a-z0-9-]+" | sort -u | tr -d ' ' | tr '\n' ' ')
   echo "$id $prop violations=$n machinery=$mach $rules"
